@@ -51,6 +51,9 @@ func evalImmut(line string) (out string, rd string) {
 		if e != "" {
 			return "op-error: " + e, rd
 		}
+		if fx.ValuesChanged() {
+			return "op-error: a stored argument or metadata value is no longer what it was", rd
+		}
 		a, m, _ := fx.Snapshot()
 		return hxListS(a) + " " + hxListS(m) + " " + hxListS(ks) + " " + fmt.Sprint(fx.SpareWritten()), rd
 	case "imm.pair":
@@ -66,6 +69,9 @@ func evalImmut(line string) (out string, rd string) {
 		ks, e := fx.Run(f[2])
 		if e != "" {
 			return "op-error: " + e, rd
+		}
+		if fx.ValuesChanged() {
+			return "op-error: a stored argument or metadata value is no longer what it was", rd
 		}
 		a, m, _ := fx.Snapshot()
 		return hxListS(a) + " " + hxListS(m) + " " + hxListS(ks) + " " + fmt.Sprint(fx.SpareWritten()), rd
